@@ -484,7 +484,7 @@ class _Array:
             raise _IntermediateError('Cannot {} arrays with unmatched indices: {!r}, {!r}.'.format(name, self.indices, other.indices))
         other = other.transpose(self.indices)
         shape, linked_lengths = self._join_shapes(other)
-        return _Array((op, self.ast, other.ast), self.indices, shape, self.summed, linked_lengths)
+        return _Array((op, self.ast, other.ast), self.indices, shape, self.summed | other.summed, linked_lengths)
 
     def __add__(self, other):
         '''Return self+other.'''
